@@ -500,14 +500,14 @@ package generator
 //@ func (*schemaGenerator).generateUnmarshaler
 //@   props C16 C01 C17
 //@   option inline (*jsonFormatter).generate (*yamlFormatter).generate
-//@   shape g = sgen()
+//@   shape g = sgen() | sgen(@jsononly)
 //@   shape decl = decl(T,none) | decl(T,addl) | decl(T,addl2)
 //@   shape validators = absvals(0) | absvals(1) | absvals(2)
 //@   assigns *g.output.file
 //@   ensures [C01] additional-properties-block-has-its-imports: !g.config.OnlyModels && struct_has_field(decl.Type, "AdditionalProperties") ==> has_import(g, "reflect") && has_import(g, "strings") && has_import(g, "github.com/go-viper/mapstructure/v2")
 //@   ensures [C01,C16] no-unused-additional-properties-import: !struct_has_field(decl.Type, "AdditionalProperties") ==> !has_import(g, "reflect") && !has_import(g, "strings") && !has_import(g, "github.com/go-viper/mapstructure/v2")
 //@   ensures [C16] only-models-adds-nothing: g.config.OnlyModels ==> len(g.output.file.Package.Decls) == 0 && len(g.output.file.Package.Imports) == 0
-//@   ensures [C16,C17] one-method-per-formatter: !g.config.OnlyModels ==> len(g.output.file.Package.Decls) == 2 && has_import(g, "encoding/json") && has_import(g, "gopkg.in/yaml.v3")
+//@   ensures [C16,C17] one-method-per-formatter: !g.config.OnlyModels ==> len(g.output.file.Package.Decls) == len(g.formatters) && has_import(g, "encoding/json") && (has_import(g, "gopkg.in/yaml.v3") <==> len(g.formatters) == 2)
 //@   ensures [C01] fmt-iff-some-fragment-returns-errors: !g.config.OnlyModels ==> (has_import(g, "fmt") <==> (len(validators) >= 1 && abs_has_error(0)) || (len(validators) >= 2 && abs_has_error(1)))
 //@   ensures [C01] no-stray-import: !g.config.OnlyModels ==> !has_import(g, "errors") && !has_import(g, "regexp") && !has_import(g, "math")
 
